@@ -228,8 +228,11 @@ func ParseEvent(line string) (Verdict, *Event) {
 		case strings.HasPrefix(f, "#"):
 			e.Tags = append(e.Tags, splitTags(f[1:])...)
 		default:
-			if f == "" || strings.IndexByte("dhkpst", f[0]) >= 0 {
-				return Unspecified, e // a known letter without ':' or an empty field: not documented
+			if f == "" {
+				continue // an empty field is a field of no known kind: ignored like any other, the fields after it count
+			}
+			if strings.IndexByte("dhkpst", f[0]) >= 0 {
+				return Unspecified, e // a known letter without ':': not documented
 			}
 			// unknown fields are ignored
 		}
